@@ -25,7 +25,7 @@ import (
 func TestVerif_C36(t *testing.T) {
 	run := verifkit.Start(t, "C36", "shutdown")
 	defer run.Finish()
-	run.Rule("a case = one single-node Refinery (PRNG: SendDelay 2ms|30s, BatchTimeout 10ms|30s, MaxBatchSize, workers; cases 0 and 1 mod 4 are fixed to short SendDelay + quiesced with long resp. short BatchTimeout), 8-20 traces (with or without root span) posted in sequential batches, and a graceful shutdown requested after a PRNG-chosen number of batches (0..all), with or without first letting the collector work through its queues; the remaining batches are posted during and after the shutdown. Non-trivial when spans acknowledged with 202 before the shutdown request existed; distinct = (SendDelay, BatchTimeout, quiesced, shutdown point, kinds of traces in memory)")
+	run.Rule("a case = one single-node Refinery (PRNG: SendDelay 2ms|30s, BatchTimeout 10ms|30s, MaxBatchSize, workers; cases 0 and 1 mod 4 are fixed to short SendDelay + quiesced with long resp. short BatchTimeout; case 2 mod 4 has 30-45 root traces, SendDelay 800ms and Stop held at the collector's Health.Unregister until the workers decided them all), 8-20 traces (with or without root span) posted in sequential batches, and a graceful shutdown requested after a PRNG-chosen number of batches (0..all), with or without first letting the collector work through its queues; the remaining batches are posted during and after the shutdown. Non-trivial when spans acknowledged with 202 before the shutdown request existed; distinct = (SendDelay, BatchTimeout, quiesced, shutdown point, kinds of traces in memory)")
 	run.Assume("the sampler keeps every trace (DeterministicSampler rate 1), so every span acknowledged before the shutdown request belongs to a kept trace")
 	run.Assume("only spans whose 202 was received before shutdown was requested are required at Honeycomb; what is acknowledged during the shutdown is not judged")
 	run.Assume("a goroutine counts as left running when it has a frame in, or was created by, a function of a /repo package and is still there after polling the goroutine dump to a fixpoint")
@@ -43,7 +43,17 @@ func TestVerif_C36(t *testing.T) {
 		case 1: // decided traces already sent on
 			sendDelay, quiesce, batchTimeout = 2*time.Millisecond, true, 10*time.Millisecond
 		}
-		cl, err := e2Start(e2Options{Nodes: 1, Configure: func(_ int, cfg *config.MockConfig) {
+		// Third stratum: decisions that happen *during* Stop. Every trace has a root
+		// span and SendDelay is long enough for the whole workload to be acknowledged
+		// and for Stop to be under way before the first decision is due; the shutdown
+		// is then held (e2HealthGate) where InMemCollector.Stop unregisters from
+		// health - after it closed its done channel, before it stops its workers -
+		// until the workers have decided every trace.
+		window := ci%4 == 2
+		if window {
+			sendDelay, quiesce = 800*time.Millisecond, false
+		}
+		cl, err := e2Start(e2Options{Nodes: 1, HealthGate: window, Configure: func(_ int, cfg *config.MockConfig) {
 			cfg.GetTracesConfigVal.SendDelay = config.Duration(sendDelay)
 			cfg.GetTracesConfigVal.TraceTimeout = config.Duration(verifkit.Pick(rng, 60*time.Second, 300*time.Second))
 			cfg.GetTracesConfigVal.BatchTimeout = config.Duration(batchTimeout)
@@ -76,9 +86,15 @@ func TestVerif_C36(t *testing.T) {
 		var all []e2Span
 		now := time.Now().UTC().Truncate(time.Millisecond)
 		nTraces := rng.Range(8, 20)
+		if window {
+			nTraces = rng.Range(30, 45)
+		}
 		for ti := 0; ti < nTraces; ti++ {
-			tr := &traceInfo{id: fmt.Sprintf("c36-%d-%d-%s", ci, ti, rng.Hex(12)), hasRoot: rng.Chance(0.5)}
+			tr := &traceInfo{id: fmt.Sprintf("c36-%d-%d-%s", ci, ti, rng.Hex(12)), hasRoot: rng.Chance(0.5) || window}
 			k := rng.Range(1, 4)
+			if window {
+				k = rng.Range(1, 2)
+			}
 			rootPos := rng.Intn(k)
 			for si := 0; si < k; si++ {
 				sp := e2Span{ID: fmt.Sprintf("%s/s%d", tr.id, si), TraceID: tr.id, Time: now.Add(time.Duration(si) * time.Millisecond),
@@ -103,6 +119,9 @@ func TestVerif_C36(t *testing.T) {
 		}
 		cut := verifkit.Pick(rng, 0, len(batches), rng.Intn(len(batches)+1), rng.Intn(len(batches)+1))
 		dataset := verifkit.Pick(rng, "c36", "c36 ds/x")
+		if window {
+			cut = len(batches)
+		}
 
 		// ---- phase 1: batches acknowledged before the shutdown request
 		acked := map[string]e2Span{}
@@ -148,10 +167,31 @@ func TestVerif_C36(t *testing.T) {
 			panicked bool
 		}
 		stopCh := make(chan stopResult, 1)
+		if window {
+			cl.Nodes[0].HealthGate.Arm("collector")
+			cl.DropIdleConnections()
+		}
 		go func() {
 			err, p := cl.StopNode(0)
 			stopCh <- stopResult{err, p}
 		}()
+		windowDecisions := int64(-1)
+		if window {
+			gate := cl.Nodes[0].HealthGate
+			select {
+			case <-gate.Parked():
+				atPark := cl.Sum("trace_send_kept", "trace_send_dropped")
+				all := cl.WaitFor(func() bool { return cl.Sum("trace_send_kept", "trace_send_dropped") >= int64(len(rootAcked)) })
+				windowDecisions = cl.Sum("trace_send_kept", "trace_send_dropped") - atPark
+				gate.Release()
+				if !all {
+					run.Inconclusive("the workers did not decide the buffered traces while Stop was held")
+				}
+			case <-time.After(e2PollBound):
+				gate.Release()
+				run.Inconclusive("Stop did not reach InMemCollector's Health.Unregister")
+			}
+		}
 		var sr stopResult
 		select {
 		case sr = <-stopCh:
@@ -190,12 +230,20 @@ func TestVerif_C36(t *testing.T) {
 		for _, ev := range cl.Honey.Events() {
 			got[e2EventID(ev.Data)]++
 		}
-		var lostBuffered, lostDecided []string
+		tracesAtHoney := map[string]bool{}
+		for _, ev := range cl.Honey.Events() {
+			if tid, ok := verifkit.AsString(ev.Data["trace.trace_id"]); ok {
+				tracesAtHoney[tid] = true
+			}
+		}
+		var lostBuffered, lostDecided, lostKeptInWindow []string
 		for id, sp := range acked {
 			if got[id] > 0 {
 				continue
 			}
-			if rootAcked[sp.TraceID] && sendDelay < time.Second && quiesce {
+			if window && windowDecisions >= 0 && rootAcked[sp.TraceID] && post["trace_send_kept"] >= int64(len(rootAcked)) {
+				lostKeptInWindow = append(lostKeptInWindow, id) // its trace was decided (kept) while Stop was held
+			} else if rootAcked[sp.TraceID] && sendDelay < time.Second && quiesce {
 				lostDecided = append(lostDecided, id) // its trace was decided and sent on before the request
 			} else {
 				lostBuffered = append(lostBuffered, id) // its trace was still in the collector's memory
@@ -219,6 +267,18 @@ func TestVerif_C36(t *testing.T) {
 			c2["lost_spans"] = lostDecided
 			run.Violation("C36/graceful-stop/span-of-decided-trace-lost", "a span acknowledged with 202 whose trace had been decided (kept) before the shutdown request is not at Honeycomb after Stop returned", c2)
 		}
+		// every decision counted as "kept" must have put its trace at Honeycomb
+		// (undecided traces are not counted in trace_send_kept, so this is
+		// independent of the buffered-trace finding)
+		sort.Strings(lostKeptInWindow)
+		if kept := post["trace_send_kept"]; kept > int64(len(tracesAtHoney)) || len(lostKeptInWindow) > 0 {
+			c2 := e2CopyMap(ctx)
+			c2["trace_send_kept"] = kept
+			c2["distinct_traces_at_honeycomb"] = len(tracesAtHoney)
+			c2["decisions_while_stop_was_held"] = windowDecisions
+			c2["lost_spans"] = lostKeptInWindow
+			run.Violation("C36/graceful-stop/kept-decision-not-forwarded", "more traces were decided 'keep' (trace_send_kept) than traces reached Honeycomb after Stop returned: a kept decision made before or during the shutdown was not forwarded", c2)
+		}
 		if len(lostBuffered) > 0 {
 			c2 := e2CopyMap(ctx)
 			c2["lost_spans"] = lostBuffered
@@ -235,6 +295,9 @@ func TestVerif_C36(t *testing.T) {
 
 		run.Count("spans_acked_before_shutdown", int64(len(acked)))
 		run.Count("spans_at_honeycomb", int64(len(got)))
+		if windowDecisions > 0 {
+			run.Count("decisions_while_stop_was_held", windowDecisions)
+		}
 		if len(acked) > 0 {
 			buffered, decided := 0, 0
 			for _, tr := range traces {
@@ -257,7 +320,7 @@ func TestVerif_C36(t *testing.T) {
 			if cut == len(batches) {
 				point = "all"
 			}
-			run.Nontrivial(fmt.Sprintf("sd=%v bt=%v q=%v at=%s buffered=%v decided=%v", sendDelay, batchTimeout, quiesce, point, buffered > 0, decided > 0))
+			run.Nontrivial(fmt.Sprintf("sd=%v bt=%v q=%v at=%s buffered=%v decided=%v window>=20:%v", sendDelay, batchTimeout, quiesce, point, buffered > 0, decided > 0, windowDecisions >= 20))
 		}
 		if ci < 2 {
 			run.Sample(ctx)
